@@ -120,6 +120,7 @@ fn main() {
                 "malformed" => Flavor::Malformed,
                 "handoff" => Flavor::Handoff,
                 "drain" => Flavor::Drain,
+                "zone" => Flavor::Zone,
                 _ => Flavor::Mixed,
             };
             let dense = args.iter().any(|a| a == "--dense");
@@ -159,6 +160,7 @@ fn main() {
                 }
                 "sbest" => u.sbest(&mut rng, n),
                 "req" => evalu::req(&mut u, &mut rng, n),
+                "meta" => u.meta(&mut rng, n),
                 _ => {
                     eprintln!("unknown unit {what}");
                     std::process::exit(2);
